@@ -215,3 +215,12 @@ func blankString(s string) bool {
 //@ loop 0 invariant src-kept: unchanged(src)
 //@ loop 0 invariant distinct: distinctArrays(dst, src)
 //@ loop 0 invariant balanced: len(e.Namespaces) == old(len(e.Namespaces))+ite(e.Flags.Get(jsonflags.AllowDuplicateNames), 0, 1) && sameOrFresh(e.Namespaces, old(e.Namespaces))
+
+//@ func (export).Encoder
+//@ inline
+
+//@ func (export).Decoder
+//@ inline
+
+//@ func (export).IsIOError
+//@ inline
